@@ -343,6 +343,10 @@ type Script struct {
 	// nothing: the application's Close() must return (and the call must have seen the cancellation)
 	// within the harness's bound.
 	GateCtx bool
+	// GateDrop (with GateCtx): instead of the application closing the connection, the client drops the TCP
+	// connection while the handler call waits for its cancellation; the server notices when a write fails
+	// (the second keep-alive after the drop at the latest) and must then cancel the handler context.
+	GateDrop bool
 	// Full: after the labels (which start at least one subscription) this frame makes the server begin
 	// closing; the harness does not answer the close frame, so the write loop sits in its 1 s wait and
 	// drains nothing; meanwhile the first source delivers events until the goroutine blocks on the full
@@ -835,6 +839,7 @@ func runConversation(tag string, sc Script) (res Result) {
 		cv.waitTerm("close-after-pipe")
 	}
 	gateClosed := false
+	gateDropped := false
 	var gateDone chan struct{}
 	if sc.Gate != nil && !cv.term {
 		flush()
@@ -858,19 +863,32 @@ func runConversation(tag string, sc Script) (res Result) {
 			t.Stop()
 		}
 		obs = append(obs, snapshot())
-		// the application closes the connection while the handler call is blocked
-		gateDone = make(chan struct{})
-		go func() { api.CloseHijackedConnections(); close(gateDone) }()
-		if cv.waitTerm("close-from-application-during-handler") {
-			cv.log = append(cv.log, sexp.T("f", SFrame{Kind: "closed", Code: cv.termCode}.sexp()))
+		if sc.GateDrop {
+			atomic.StoreInt32(&clientClosing, 1)
+			c.UnderlyingConn().Close()
+			deadline := time.Now().Add(2*keepAlivePeriod + 2*tickMargin)
+			for atomic.LoadInt32(&w.sawCancel) == 0 && time.Now().Before(deadline) {
+				time.Sleep(20 * time.Millisecond)
+			}
+			if atomic.LoadInt32(&w.sawCancel) == 0 {
+				cv.stall = append(cv.stall, "handler-context-not-cancelled")
+			}
+			gateDropped = true
+		} else {
+			// the application closes the connection while the handler call is blocked
+			gateDone = make(chan struct{})
+			go func() { api.CloseHijackedConnections(); close(gateDone) }()
+			if cv.waitTerm("close-from-application-during-handler") {
+				cv.log = append(cv.log, sexp.T("f", SFrame{Kind: "closed", Code: cv.termCode}.sexp()))
+			}
+			if !sc.GateCtx {
+				// the read loop is not reading, so the client's answer to the close frame would not be seen:
+				// the write loop gives up waiting after 1 s, closes the socket and exits
+				time.Sleep(1300 * time.Millisecond)
+				close(w.gate)
+			}
+			gateClosed = true
 		}
-		if !sc.GateCtx {
-			// the read loop is not reading, so the client's answer to the close frame would not be seen:
-			// the write loop gives up waiting after 1 s, closes the socket and exits
-			time.Sleep(1300 * time.Millisecond)
-			close(w.gate)
-		}
-		gateClosed = true
 	}
 	if sc.Full != nil && !cv.term && len(w.sources) > 0 {
 		flush()
@@ -949,7 +967,9 @@ func runConversation(tag string, sc Script) (res Result) {
 	}
 
 	end := sc.End
-	if gateClosed {
+	if gateDropped {
+		end = "drop-during-handler"
+	} else if gateClosed {
 		end = "app-close-during-handler"
 	} else if cv.term {
 		end = "peer"
@@ -980,6 +1000,8 @@ func runConversation(tag string, sc Script) (res Result) {
 	}
 	cv.log = append(cv.log, sexp.T("sent", sexp.Int(len(performed))))
 	switch end {
+	case "drop-during-handler":
+		end = "drop"
 	case "app-close-during-handler":
 		replyClose()
 		t := time.NewTimer(2 * waitT)
